@@ -363,5 +363,47 @@ def ctfTROrderSensitive (target : MG Name) (domains : List Domain) (outcomes con
       | .ok (some (_, some simplified)) => finalChecksOrderSensitive simplified
       | _ => false
 
+/-! ### the crash classes of Algorithm 3 as decidable predicates on the input (hypotheses of
+`ctfTR_no_internal_error_partial`, Props/C09 §6; reported by the driver op `ctftr classes`) -/
+
+/-- the variables of `D*` before the conversion to ctf-factor form: the union of the ancestral components that contain an
+outcome variable -/
+def dstarVars (g : MG Name) (o c : Ctf.Event) : Except Err (List Var) := do
+  let comps ← Ctf.ancestralComponents g (eventVars c) (Ctf.unionVars (eventVars c) (eventVars o))
+  pure (deriveVars comps (eventVars o))
+
+/-- every outcome variable is found in the ancestral components under its own name (the complement is the class of the
+findings `crash:ctfTR-derived-event-rejected`, `crash:ctfTR-final-check`, `value:outcome-lookup-miss`) -/
+def OutcomesFound (g : MG Name) (o c : Ctf.Event) : Bool :=
+  match dstarVars g o c with
+  | .ok D => o.all fun p => Ctf.mem' p.1 D
+  | .error _ => false
+
+/-- `D*` names every graph vertex in one world only (no `Y_x` next to `Y_{x'}`) -/
+def DstarOneWorld (g : MG Name) (o c : Ctf.Event) : Bool :=
+  match dstarVars g o c with
+  | .ok D => decide ((D.map (·.name)).Nodup)
+  | .error _ => false
+
+/-- no outcome shares its graph vertex with a condition (the class for which the validator documents
+`NotImplementedError`; finding `value:outcome-also-condition`) -/
+def OutcomeNotCondition (o c : Ctf.Event) : Bool := o.all fun p => c.all fun q => p.1.name != q.1.name
+
+/-- the expression `Q` only mentions graph vertices (as plain variables) and variables of the domains' distributions -/
+def vocabCheck (target : MG Name) (ds : List Domain) (q : Expr) : Bool :=
+  (Expr.iterVars q).all fun v => Ctf.mem' v (target.nodes.map Var.plain) || ds.any fun d => Ctf.mem' v (Expr.iterVars d.pop)
+
+/-- run lines 1-3 and look at `Q` -/
+def qGoodCheck (target : MG Name) (ds : List Domain) (o c : Ctf.Event) : Bool :=
+  match line2C target o c with
+  | .ok (dstar, _) =>
+    match ctfTRu target ds dstar with
+    | .ok (some (q, some _)) => !TrDsl.isZero q && vocabCheck target ds q
+    | _ => true
+  | .error _ => true
+
+def popsCoverCheck (target : MG Name) (ds : List Domain) : Bool :=
+  target.nodes.all fun n => ds.any fun d => Ctf.mem' (Var.plain n) (Expr.iterVars d.pop)
+
 end CtfTr
 end Y0
